@@ -64,7 +64,7 @@ def confirm(pid, n):
         copied = []
         for f in sorted(os.listdir(src + "/demo")):          # a demo may consist of several test files
             if f.endswith("_test.go"):
-                t = os.path.join(wt, pkg, f if f != demos[0] else "zz_demo_test.go")
+                t = os.path.join(wt, pkg, f if (f != demos[0] or "zz_demo_test.go" in demos) else "zz_demo_test.go")
                 shutil.copy(src + "/demo/" + f, t); copied.append(t)
         cmd = "go test %s-vet=off -count=1 -run '%s' ./%s/" % (flags, run, pkg)
         conf["demo_cmd"] = "cp demo/zz_demo_test.go <repo>/%s/ && cd <repo> && %s" % (pkg, cmd)
